@@ -64,6 +64,7 @@ def run(ctx):
     orderitems(ctx)
     order_laws(ctx)
     wrappers(ctx)
+    override_obligations(ctx)
     straightline(ctx)
     setattr_immutable(ctx)
     sort_keys(ctx)
@@ -71,6 +72,7 @@ def run(ctx):
     bounded_pairs(ctx)
     bounded_cache(ctx)
     ctx.replayers['C14.'] = lambda r: dict(reproduced=None, detail='see counterexample / meta')
+    ctx.replayers['C14.override.'] = replay_override
 
 def orderitems(ctx):
     from pytableaux.lang import Lexical
@@ -118,6 +120,74 @@ class CmpSelf(SymVal):
     def sym_isinstance(self, it, cls): return True
     def sym_len(self, it): return self.n
     def sym_iter(self, it): return list(self.items)
+
+
+def override_obligations(ctx):
+    """a lexical class that redefines a comparison (Predicate.__eq__ does, to accept a system predicate's name) must leave the comparison
+    of two lexical items exactly as the common wrapper decides it: for a lexical `other` the override returns super()'s answer."""
+    import inspect, types
+    from pytableaux.lang import lex, Lexical
+    from pyvc.world import World
+    base_owners = {c for c in (lex.Lexical, lex.LexicalAbc, lex.LexicalEnum, getattr(lex, 'LexType', None)) if c is not None}
+    found = 0
+    for cname, cls in sorted(vars(lex).items()):
+        if not (inspect.isclass(cls) and cls.__module__ == lex.__name__ and issubclass(cls, Lexical)) or cls in base_owners: continue
+        for nm in ('__eq__', '__ne__', '__lt__', '__le__', '__gt__', '__ge__'):
+            fn = cls.__dict__.get(nm)
+            if not isinstance(fn, types.FunctionType) or getattr(fn, '__qualname__', '').startswith('Lexical.'): continue
+            found += 1
+            fi = source.of_function(fn); where = ctx.under_contract(fi)
+            oname = f'C14.override.{cname}.{nm}'
+            bad = []; npaths = 0
+            try:
+                for sup_kind in ('bool', 'notimplemented'):
+                    def runp(path, sup_kind=sup_kind):
+                        it = Interp(path, World())
+                        res = path.fork(z3.Bool('super_says_equal')) if sup_kind == 'bool' else NotImplemented
+                        class Me(SymVal):
+                            def sym_getattr(s, it, n):
+                                if n == 'is_system': return it.fork(z3.Bool('self_is_system'))
+                                if n == 'name': return 'Name'
+                                raise Outside(f'{cname}.{n}')
+                            def sym_super_getattr(s, it, defcls, n):
+                                if n == nm: return Contract(lambda it, o: res, f'Lexical.{nm} (the common wrapper)')
+                                raise Outside(f'super().{n}')
+                            def sym_is(s, it, o): return it.fork(z3.Bool('same_object')) if isinstance(o, Other) else False
+                            def sym_type(s, it): return cls
+                            def sym_truth(s, it): return True
+                        class Other(SymVal):
+                            "another lexical item of the same class"
+                            def sym_type(s, it): return cls
+                            def sym_isinstance(s, it, c): return c is cls or (isinstance(c, type) and issubclass(cls, c))
+                            def sym_is(s, it, o): return it.fork(z3.Bool('same_object')) if isinstance(o, Me) else False
+                            def sym_truth(s, it): return True
+                        me = Me()
+                        return it.call_source(fi, fn, cls, [me, Other()], {}, recv=me), res
+                    for pr in explore(runp):
+                        npaths += 1
+                        if pr.kind != 'return': bad.append(f'raises {pr.value.cls.__name__}'); continue
+                        got, res = pr.value
+                        same = (got is res) or (isinstance(got, bool) and isinstance(res, bool) and got == res)
+                        if not same: bad.append(f"super() says {res!r} for two lexical items, the override answers {got!r} (path: {[str(c) for c in pr.path.pc]})")
+                ctx.add(enum_ob(oname, not bad and npaths >= 2, where=where, paths=npaths, cex=dict(bad=bad[:3]) if bad else None,
+                                clause=f'{cname}.{nm}(other) for a lexical other of the same class is exactly what the common comparison wrapper answers (equality stays consistent with ordering and hashing)'))
+            except Outside as e:
+                ctx.add_result(Result(oname, 'unknown', detail=f'outside subset: {e}', where=where))
+    ctx.add(enum_ob('C14.override.enumerated', True, classes_with_overrides=found, clause='every comparison method redefined below the common Lexical wrapper has an obligation of its own'))
+
+def replay_override(r):
+    "equal-but-distinct objects of the class (pickle round trip, rebuilt from spec) must compare equal and order consistently"
+    import pickle
+    from pytableaux.lang import Predicate, Constant, Variable, Atomic
+    from bounded.args import distinct_equal
+    out = []
+    items = list(Predicate.System) + [Predicate(0, 0, 1), Predicate(1, 2, 3), Constant(0, 0), Variable(1, 1), Atomic(0, 0), Predicate.Identity(Constant(0, 0), Constant(1, 0))]
+    for x in items:
+        for how, y in (('pickle round trip', pickle.loads(pickle.dumps(x))), ('equal copy', distinct_equal(x))):
+            if y is x: continue
+            if not (x == y and y == x and not (x != y) and x <= y and x >= y and hash(x) == hash(y)):
+                out.append(f'{type(x).__name__} {x!r} vs its {how}: == {x == y}, <= {x <= y}, >= {x >= y}, hash equal {hash(x) == hash(y)}')
+    return dict(reproduced=bool(out), detail='; '.join(out[:3]) or 'distinct equal objects compare equal')
 
 def wrappers(ctx):
     import operator as opr
